@@ -423,3 +423,38 @@ func scenParamChange(start int64, field string) *scenario {
 	}
 	return s
 }
+
+// mass population: one process lifetime touches far more distinct accounts than any ordinary history
+// (long-lived caches, pools and maps behave differently when they are large).
+func scenMassPopulation(start int64, blocks, perBlock int) *scenario {
+	s := &scenario{name: "mass-population", start: start}
+	n := 0
+	s.step = func(sc *scenCtx, rel int64) {
+		k := reservedKey(sc.hr, 5)
+		if k == nil || rel >= int64(blocks) {
+			return
+		}
+		for j := 0; j < perBlock; j++ {
+			n++
+			to := sha256sum([]byte(fmt.Sprintf("population-%d", n)))[:20]
+			sc.addFast(k, to, big.NewInt(1))
+		}
+		sc.hr.C.Count("scenario.mass-population-accounts", perBlock)
+	}
+	return s
+}
+
+// addFast appends a plain transfer without scanning the block for earlier transactions of the sender.
+func (sc *scenCtx) addFast(k *Key, to []byte, amt *big.Int) {
+	if sc.added == nil {
+		sc.added = map[string]uint64{}
+		sc.added[k.A()] = sc.nonce(k)
+	}
+	P := sc.pre.Params
+	tx := mkTx(rctypes.TRX_TRANSFER, k.Addr, to, sc.added[k.A()], P.MinTrxGas, u256big(bigDec(P.GasPrice)), u256big(amt), nil, sc.h*1_000_000+int64(len(sc.txs)))
+	sc.added[k.A()]++
+	raw := signTx(tx, k, sc.hr.G.G.ChainID)
+	ti := &TxInfo{Tx: tx, Raw: raw, Hash: hx(sha256sum(raw)), Label: "scenario:population-transfer", Pub: k.Pub, SigOK: true, Intend: true}
+	sc.txs = append(sc.txs, ti)
+	sc.b.Txs = append(sc.b.Txs, raw)
+}
